@@ -48,11 +48,11 @@ pub fn build_spec(property: &str, tier: &str, seed: u64) -> Option<Spec> {
             ];
             Some(Spec {
                 property: "C07", level: "fault_enumeration", phases,
-                rule: "char-sweep / byte-sweep: for every document (repository corpus <= 2 KiB, hand-written extras, seeded generated documents), every length profile, every item position and every single fault kind (End, Fail, Insert x alphabet, Flip x alphabet, Drop, Dup, Swap; byte level: Cut, 8 bit flips, splices of ill-formed and notable well-formed sequences, and for documents with multi-byte characters every byte replaced by all 256 values) one strict parse through a deterministically chosen entry point; seeded-search: 0-4 faults of a per-run enabled subset at positions biased to in-flight state, on corpus and generated documents up to 20k items, random delivery profile and entry point. A case is one fully explicit delivered stream (entry point, items with byte lengths, terminal event); distinct = distinct 64-bit digest of that; non-trivial = at least one injected fault lies at or before the parser's decision point (first rejected item or end of input, +1 look-ahead), i.e. the parser actually met it.".into(),
+                rule: "char-sweep / byte-sweep: for every document (repository corpus <= 2 KiB, hand-written extras, seeded generated documents), every length profile, every item position and every single fault kind (End, Fail, Insert x alphabet, Flip x alphabet, Drop, Dup, Swap; byte level: Cut, 8 bit flips, splices of ill-formed and notable well-formed sequences, and for documents with multi-byte characters every byte replaced by all 256 values) one parse through a deterministically chosen entry point (entry points that take options: strict in half of the runs, each of the three relaxed combinations otherwise); seeded-search: 0-4 faults of a per-run enabled subset at positions biased to in-flight state, on corpus and generated documents up to 20k items, random delivery profile and entry point. A case is one fully explicit delivered stream (entry point, items with byte lengths, terminal event); distinct = distinct 64-bit digest of that; non-trivial = at least one injected fault lies at or before the parser's decision point (first rejected item or end of input, +1 look-ahead), i.e. the parser actually met it.".into(),
                 assumptions: vec![
                     "reference viable-prefix recogniser (sim/src/stream/refpda.rs) is a faithful RFC 8259 PDA; it shares no code with the parser".into(),
                     "std::str::from_utf8 defines well-formed UTF-8 for the byte path".into(),
-                    "strict options only; verdict questions (C01) and panics (C03) are counted as notes, never judged here".into(),
+                    "all four option combinations; under relaxed options the surrogate clause is judged against a superset of what may be reported, and whether an option is honoured is not judged; verdict questions (C01) and panics (C03) are counted as notes, never judged here".into(),
                     "sampling, not proof: clean batch = evidence".into(),
                 ],
                 matrix: ("fault_kind", crate::stream::faults::FAULT_KIND_NAMES.to_vec(), "model_phase_at_fault", crate::stream::refpda::PHASE_NAMES.to_vec(), c07::RESULT_NAMES.to_vec()),
@@ -128,7 +128,7 @@ pub fn judge_scenario(property: &str, sc: &Scenario) -> Result<Option<(String, S
     let mut st = Stats::default();
     let v = match (property, sc) {
         ("C07", Scenario::Stream(s)) => {
-            if !s.strict() || s.target != crate::stream::tape::Target::Value || !s.ends_at_terminal() || s.entry == crate::stream::tape::Entry::ParseIn { return Err("not a C07 scenario (must be strict, target Value, nothing delivered after the first terminal event)".into()); }
+            if s.target != crate::stream::tape::Target::Value || !s.ends_at_terminal() || s.entry == crate::stream::tape::Entry::ParseIn { return Err("not a C07 scenario (target Value, nothing delivered after the first terminal event)".into()); }
             c07::execute_c07(s, 0, &mut st, 0, None).violation
         }
         ("C03", Scenario::Stream(s)) => c03::execute_c03(s, 0, &mut st, 0, None).violation,
